@@ -30,6 +30,15 @@ CHECKS = {
  "C10": ("fault_enumeration", "4 C10", "I/O fault injection at every byte offset of the output stream (error and legal short write, sticky) and of the consumed input stream (sticky non-EOF error, with and without data)",
    "Per sampled file every fault offset is enumerated in both directions and both legal fault forms; files are sampled by seed. Decides that every injected failure surfaces as an error and that a nil error implies exact size.",
    "WriteFile's os layer is not driven; writers/readers behave legally"),
+ "C04": ("exploration", "4 C04", "seeded sender node + wire: running-status elisions, real-time bytes interleaved anywhere, arbitrary chunking with time deltas on the virtual clock; delivered list and time stamps compared with the sent list",
+   "Samples message sequences x elisions x real-time placements x chunk schedules at both real observation points (drivers.Reader.EachMessage and midi.ListenTo on the testdrv loopback inside a synctest bubble). Every chunk boundary and time delta is an explicit, replayable part of the scenario. Sampling, not enumeration.",
+   "well-formed streams; raw-reader zero padding accepted; refrx cross-checked against the sender on every run"),
+ "C06": ("exploration", "4 C06", "seeded line noise, hot-plug (listener attached mid-message / mid-sysex), oversize sysex around the buffer size and arbitrary chunking; deliveries compared with an executable MIDI 1.0 receiver model, plus no-panic / well-formedness / resynchronisation clauses",
+   "Samples streams over the byte-class alphabet and measures transition coverage of the receiver model instead of enumerating all bounded streams (that would be model checking).",
+   "receiver model written from MIDI 1.0 (appendix A of DESIGN.md); F9/FD delivery not compared"),
+ "C14": ("exploration", "4 C14", "paired simulated runs: the same recorded stream and chunk/time schedule replayed on fresh loopback drivers under all 8 listen-option sets; outputs compared as projections of the all-options run",
+   "A relation between runs that differ only in configuration while the schedule is held fixed by the simulator (the schedule is recorded, not re-drawn).",
+   "streams from C04's domain; same SysExBufferSize in all runs"),
 }
 def main():
     checks = []
@@ -62,7 +71,7 @@ def main():
         "notes": "Exit codes: 0 property held on everything explored, 1 VIOLATION (replay file given), 2 infrastructure trouble (never a VIOLATION). VERIF_SEED selects the seed, VERIF_RUNS overrides the run count.",
     }
     claimed = set(CHECKS)
-    for pid in ["C04","C06","C12","C13","C14","C17","C19"]:
+    for pid in ["C12","C13","C17","C19"]:
         if pid not in claimed:
             m["not_applicable"].append({"property_id": pid, "reason": "claimed in DESIGN.md but its check is not built yet in this commit (work in progress); not a judgement that the technique does not apply"})
     m["not_applicable"].sort(key=lambda x: x["property_id"])
